@@ -20,7 +20,7 @@ var c08Tokens = []string{
 	"<=", ">=", "==", "!=", "++", "--", "..", "||", "&&", "<<", ">>", "=>", ":=",
 	"func", "true", "false", "if", "else", "return", "for", "break", "continue", "macro", "quote", "unquote",
 	"len", "first", "rest", "print", "println", "log", "error", "catch", "del",
-	`"u`, "/* u", "\n", "@", "\x00", "\xff", "1e999", "0x", "//", "\r", "\t",
+	`"u`, "/* u", "\n", "@", "\x00", "\xff", "1e999", "0x", "//", "\r", "\t", `"\u`, `"\U0001`, `"\x4`, `"\`,
 }
 
 // one representative per parse-function / precedence class
